@@ -107,6 +107,43 @@ def _(c):
     c.ensure('canary', val.eq(st.ival, A.inv_shift_rows(s0)))
 
 # =====================================================================  DES / TDEA
+# ---------------------------------------------------------------- several cipher objects in one process (bounded, native)
+@obligation(P, 'block-ciphers/keys-of-equal-integer-value', cls='B', native=True, bound='per cipher: keys of every admissible length whose bytes are all zero / end in 01 / start with 01 (equal as integers, different as keys), '
+            'objects created and used in every order within one process; 3 blocks', cases={'cipher': ['AES', 'Serpent', 'Threefish', 'TDEA']},
+            funcs=['crysp.aes.AES.__init__', 'crysp.aes.AES.keyschedule', 'crysp.aes.AES.enc', 'crysp.aes.AES.dec', 'crysp.serpent.Serpent.__init__', 'crysp.threefish.Threefish.__init__', 'crysp.des.TDEA.__init__'],
+            note='"for every key" includes keys that differ only in length: a result must not depend on which other keys were used before in the same process')
+def _(c):
+    import itertools
+    k = c.case('cipher')
+    if k == 'AES':
+        from spec import aes as SA
+        mk = lambda key: aes.AES(key); ref = lambda key, b: bytes(SA.encrypt(list(key), list(b))); lens = (16, 24, 32); bs = 16
+    elif k == 'Serpent':
+        from spec import serpent as SS
+        import crysp.serpent as serpent
+        mk = lambda key: serpent.Serpent(key); ref = lambda key, b: bytes(SS.encrypt(key, b)); lens = (16, 24, 32); bs = 16
+    elif k == 'Threefish':
+        from spec import threefish as ST
+        import crysp.threefish as threefish
+        mk = lambda key: threefish.Threefish(key, bytes(16)); ref = lambda key, b: bytes(ST.encrypt(key, bytes(16), b)); lens = (32, 64, 128); bs = None
+    else:
+        from spec import des as SD
+        import crysp.des as des
+        def tdea_ref(key, b):
+            k1, k2, k3 = (key[0:8], key[8:16], key[16:24]) if len(key) == 24 else (key[0:8], key[8:16], key[0:8])
+            return bytes(SD.encrypt(k3, bytes(SD.decrypt(k2, bytes(SD.encrypt(k1, b))))))
+        mk = lambda key: des.TDEA(key); ref = tdea_ref; lens = (16, 24); bs = 8
+    for shape in ('zero', 'tail', 'head'):
+        keys = [bytes(n) if shape == 'zero' else bytes(n - 1) + b'\x01' if shape == 'tail' else b'\x01' + bytes(n - 1) for n in lens]
+        for order in itertools.permutations(range(len(keys))):
+            for i in order:
+                key = keys[i]; n = bs or len(key)
+                o = mk(key)
+                for blk in (bytes(n), bytes(range(n)), bytes([0xff] * n)):
+                    ct = o.enc(blk)
+                    c.ensure('%s/%s/order=%s/len=%d/enc' % (k, shape, ''.join(map(str, order)), len(key)), bytes(ct) == ref(key, blk))
+                    c.ensure('%s/%s/order=%s/len=%d/dec' % (k, shape, ''.join(map(str, order)), len(key)), bytes(o.dec(ct)) == blk)
+
 from spec import des as D
 import crysp.des as des
 from props.des_common import *
